@@ -103,6 +103,22 @@ fn det(case: &Case, rep: &mut Report) {
     if canaries.len() >= 2 || !multi_order_sites.is_empty() {
         rep.nontrivial.insert(scenario);
     }
+    // a subject that compiled twice from one caller-held table reports the comparison itself
+    if let Some((e, t, k, r)) = subjects
+        .iter()
+        .find(|s| s.3.text.contains("=== second compile of the same table: DIFFERENT ==="))
+    {
+        rep.findings.push(Finding {
+            property: "C07".into(),
+            class: "repeat-differs".into(),
+            fingerprint: "caller-table".into(),
+            detail: format!(
+                "{}: exec {e} thread {t} task {k}: compiling twice from the same table (rssl's built-in array handler) gives two results: {}",
+                case.label,
+                r.text.lines().filter(|l| l.starts_with("Err") || l.starts_with("Ok") || l.contains("error")).take(4).collect::<Vec<_>>().join(" | ")
+            ),
+        });
+    }
     if let Some((e0, t0, k0, first)) = subjects.first() {
         for (e, t, k, r) in subjects.iter().skip(1) {
             if r.text != first.text || r.aux != first.aux {
